@@ -1,3 +1,4 @@
--- This module serves as the root of the `StepupModel` library.
--- Import modules here that should be built as part of the library.
-import StepupModel.Basic
+-- Root of the library: everything `lake build` must check.
+import StepupModel.Proto
+import StepupModel.Props.C13
+import StepupModel.Props.C18
